@@ -18,6 +18,8 @@ def run(tier, seed):
     run_hex(rep, "HSxSL direct", universe="HS", values=("S", "L"), prune=True, props=P, state_cap=8000)
     run_hex(rep, "H7xSL direct", universe="H7", values=("S", "L"), prune=True, props=P, state_cap=8000)
     run_hex(rep, "HW4 x V32/V55/V56 direct (32-byte values, RLP long-string boundary)", universe="HW4", values=("V32", "V55", "V56"), prune=True, props=P, state_cap=8000)
+    run_hex(rep, "H2xSL chains of 3 events on ONE live object, direct operations and committed batches mixed (short <-> long roots)", universe="H2",
+            values=("S", "L"), prune=True, props=P, batch_len=1, exits=("commit",), chain=3, state_cap=8000)
     run_hex(rep, "HCxSL batch<=2 (a transient node equals a node created elsewhere)", universe="HC", values=("S", "L"), prune=True, props=P, batch_len=2,
             exits=("commit", "abort"), state_cap=8000)
     run_hex(rep, "H3SxSL direct (a node referenced three times)", universe="H3S", values=("S", "L"), prune=True, props=P, state_cap=8000)
